@@ -134,8 +134,8 @@ def check_enum(cx, fn, rep, facts):
         S.bad('SUM-HASH', 'enum-body-sites', 'expected one `match self { #arms }` emission, found %d' % len(bodies), site)
         return
     b = bodies[0]
-    g = S.atoms(b)
-    if not (len(g) == 1 and g[0][0] == 'empty' and g[0][2] is False):
+    g = [a_ for a_ in S.atoms(b) if not (a_[0] == 'data' and a_[1] == 'Enum' and a_[2] is True)]
+    if not (len(g) == 1 and __import__('sa.emptiness', fromlist=['nonempty_evidence']).nonempty_evidence(g, S.cx, S.fw)):
         S.bad('SUM-HASH', 'enum-match-guard', 'the `match self` is emitted under %s' % [atom_s(a) for a in g], b)
         return
     e = b.ast[0]['expr'] if b.cat == 'stmts' and len(b.ast) == 1 and b.ast[0]['k'] == 'Expr' else None
